@@ -267,7 +267,7 @@ def run(ctx, rep):
             continue
         for i in f.all_insts():
             # values stored into / compared with a ring index: index fields and locals named *_index are fed by (x + 1) <op> <something with io_max>
-            if i.op in ('urem', 'and', 'srem', 'udiv', 'select') and any('io_max' in f.expr(o) for o in i.ops):
+            if i.op in ('urem', 'and', 'srem', 'udiv', 'select'):      # whatever the wrap is taken against (a constant included)
                 a0 = f.inst_of(i.ops[0])
                 adv = a0 is not None and a0.op == 'add' and f.const_of(a0.ops[1]) == 1 and 'index' in f.expr(a0.ops[0])
                 if not adv:
